@@ -183,6 +183,25 @@ def run(ctx):
             R.violation('e', 'R3', inst, 'digests_for_range:listing', 'list_all_in_dir reachable: %s; list_completed_in_dir reachable: %s (the last certified '
                         'trio would never be hashed)' % (lists_all, lists_completed), cdr[0].loc())
 
+    # the digests compared are computed from the FILES, at every verification: the client never gives its digester a digest cache
+    # (seed C10-4: a digester kept in the prover with an in-memory cache keyed by file name answered the second verification from memory)
+    NEWD = 'mithril_cardano_node_internal_database::digesters::cardano_immutable_digester::CardanoImmutableDigester::new'
+    sites = [(f0, c) for f0 in ctx.ws.fns if f0.unit.crate == 'mithril_client' and f0.unit.tag == 'lib'
+             for c in f0.body.calls() if NEWD in c.names()]
+    inst = 'mithril-client builds its immutable digester without a digest cache (every verification hashes the files)'
+    if not sites:
+        R.violation('e', 'R5', inst, 'client-digester:no-cache:vacuous', 'no CardanoImmutableDigester::new call in mithril-client', None)
+    else:
+        cached = []
+        for f0, c in sites:
+            og = fn_origins(f0, c.args[0], True)
+            if any(o.startswith(('call:', 'pty:', 'p#', 'param:', 'lty:')) for o in og):
+                cached.append('%s line %d (%s)' % (fn_short(f0.name), c.line, sorted(o for o in og if o.startswith(('call:', 'pty:')))[:2]))
+        if cached:
+            R.violation('e', 'R5', inst, 'client-digester:no-cache', 'the cache provider argument is not the constant None at: %s' % cached, sites[0][0].loc())
+        else:
+            R.ok('e', 'R5', inst, '%d construction site(s), cache provider = None' % len(sites), sites[0][0].loc())
+
     # ---- (b) (c) (d)
     v = ctx.try_fn('b', VCD)
     if v is None:
